@@ -1,10 +1,6 @@
 // TRUSTED PRELUDE (C16): assumed contracts on std items that the C16 units meet and vstd does not cover.
 // Nothing here models engeom code.
 
-// `<[T]>::is_empty` / `<[T]>::len` reached through `Deref<Target = [T]>` (auto-deref made explicit by an R12 subst)
-pub assume_specification<T> [<[T]>::is_empty] (s: &[T]) -> (r: bool)
-    ensures r == (s@.len() == 0);
-
 // NaN is kept as an uninterpreted predicate (DESIGN 2.3): the real-number model has no NaN value, the predicate only
 // lets `assert!(!x.is_nan())` in engeom code become a definedness obligation that callers must discharge.
 pub uninterp spec fn f64_is_nan(x: f64) -> bool;
